@@ -47,6 +47,8 @@ class Gen:
         self.dead = []              # names whose block has ended
         self.has_probe = False
         self.has_badcall = False
+        self.frozen = []            # collections being iterated over: not changed inside their own loop (what a loop over a
+                                    # collection that changes under it visits is not specified by the properties)
         self.ret_type = None        # "num" while generating the body of a number-valued method
         self.fret = {}              # method name -> "num" | None
 
@@ -61,6 +63,9 @@ class Gen:
             s += chr(ord("a") + n % 26)
             n //= 26
         return s
+
+    def mutable_of(self, t):
+        return [n for n in self.vars_of(t) if n not in self.frozen]
 
     def vars_of(self, t=None):
         out = []
@@ -327,6 +332,8 @@ class Gen:
             if self.rng.random() < 0.7:
                 return self.s_decl(d)
             t = t[6:]
+        if n in self.frozen and t in ("list", "dict"):
+            return self.s_decl(d)
         if t == "list" and self.rng.random() < 0.5:
             return [ExprS(AssignIndex(Var(n), Num(self.rng.randrange(0, 5)), self.expr(self.rng.choice(["num", "list", "str"]), d + 1)))]
         if t == "dict" and self.rng.random() < 0.5:
@@ -391,7 +398,12 @@ class Gen:
             self.declare(names[0], "num" if t == "list" else "str")
             self.declare(names[1], "any")
         self.in_loop += 1
+        target_var = e[1] if e[0] == "EVar" else (e[2][0][1] if e[0] == "ECall" and e[2] and e[2][0][0] == "EVar" else None)
+        if target_var:
+            self.frozen.append(target_var)
         body = self.block(d + 1)
+        if target_var:
+            self.frozen.pop()
         self.in_loop -= 1
         self.scopes.pop()
         # the loop variables are looked at on every pass, and a signal is taken on SOME passes only (what the passes after it
@@ -417,8 +429,8 @@ class Gen:
 
     def s_coll(self, d):
         rng = self.rng
-        ls = self.vars_of("list")
-        ds = self.vars_of("dict")
+        ls = self.mutable_of("list")
+        ds = self.mutable_of("dict")
         if not ls and not ds:
             return self.s_decl(d)
         if ls and (not ds or rng.random() < 0.6):
